@@ -321,29 +321,19 @@ def exec_mixed(case):
 
 # ----------------------------------------------------------------------------- (e) the N-th call of a process
 
-@st.composite
-def order_cases(draw):
+def _order():
     from checks import prelude
 
-    return {"history": [list(h) for h in draw(prelude.histories)], "final": draw(layout_cases())}
+    return prelude.make_order(layout_cases(), exec_layout, lambda c: [c["dtype"], c["qtype"], c["axis"]])
 
 
-def _exec_order(case):
-    from checks import prelude
-
-    done = prelude.run_history(case["history"])
-    out = exec_layout(case["final"])
-    out.failures = [(f"after-history/{s}", f"{m} [after {' -> '.join(done) or 'nothing'}]") for s, m in out.failures]
-    out.nontrivial = bool(out.nontrivial) and len(done) > 0
-    out.fingerprint = [sorted(set(done)), case["final"]["dtype"], case["final"]["qtype"], case["final"]["axis"]]
-    out.klass = [f"pre-{n}" for n in set(done)] + [f"history-len{len(done)}"]
-    return out
+def run_order(ctx):
+    strategy, execute = _order()
+    drive(ctx, strategy, execute, max(1, int(ctx.params["n"] * ctx.params.get("scale", 1))))
 
 
 def exec_order(case):
-    from vlib.core import isolated
-
-    return isolated(_exec_order)(case)
+    return _order()[1](case)
 
 
 def _run(strategy, execute):
@@ -358,5 +348,5 @@ SUBCHECKS = {
     "fp32": {"run": _run(fp32_cases(), exec_fp32), "execute": exec_fp32},
     "layout": {"run": _run(layout_cases(), exec_layout), "execute": exec_layout},
     "mixed": {"run": _run(mixed_cases(), exec_mixed), "execute": exec_mixed},
-    "order": {"run": _run(order_cases(), exec_order), "execute": exec_order},
+    "order": {"run": run_order, "execute": exec_order},
 }
